@@ -100,7 +100,7 @@ theorem matchP_errStep (nL : Nat) (D : List Dialect) (cap : Nat) (stop : Bool) (
       | ok _ => cases hr; exact ⟨this.1, trivial⟩
       | error a => cases hr; exact this
 
-theorem TokSame.tokW {nL : Nat} {t : Token} {r : Bool × Token} (h : TokSame t r) (ht : TokW nL t) : TokW nL r.2 := by
+theorem TokKeep.tokW {nL : Nat} {t : Token} {r : Bool × Token} (h : TokKeep t r) (ht : TokW nL t) : TokW nL r.2 := by
   intro hl
   rw [h.2]
   exact ht (by rw [← h.1]; exact hl)
@@ -377,7 +377,7 @@ theorem runProd_lines (nL : Nat) (s : Prop) (cap : Nat) (stop : Bool) (t : Token
 
 theorem matchP_lines (nL : Nat) (s : Prop) (D : List Dialect) (cap : Nat) (stop : Bool) (k : Kind) (t : Token)
     (ht : TokW nL t) :
-    Triple (LI nL s) (matchP D cap stop k t) (fun r c => TokSame t r ∧ LI nL s c) (fun a _ => ThrownOK nL a) := by
+    Triple (LI nL s) (matchP D cap stop k t) (fun r c => TokKeep t r ∧ LI nL s c) (fun a _ => ThrownOK nL a) := by
   refine Triple.intro fun c r c' hc hr => ?_
   have hE := matchP_errStep nL D cap stop k t ht _ _ _ hr hc.1
   have hf := matchP_foot D cap stop k t _ _ _ hr
